@@ -62,13 +62,25 @@ def stepGlue : List String → Option String
     | some l => some (resLine id (firstAccept l)) | none => some "bad-op"
   | ["matching_key", bits] =>
     some (resLine toString (matchingKeyId (if bits == "-" then [] else bits.toList.map (· == '1'))))
-  | ["cert_parse", h, derLen, pemOk] =>
-    match parseHex h, parseNat derLen, parseBool pemOk with
+  | ["cert_parse", h, okLen, pemOk] =>
+    -- `okLen` = length of the prefix of the data that `cryptography` loads as a certificate (0 = none): the loader's CONTENT answer;
+    -- which prefix is the element, too short / ExtraData and what is stripped are decided by the model (`derTotalLen`, `derLoad`, `certLoadDer`)
+    match parseHex h, parseNat okLen, parseBool pemOk with
     | some b, some L, some po =>
-      let load : Bytes → LoadRes String := fun d =>
-        if L = 0 then .fail else if d.length = L then .ok "cert" else if d.length > L then .extraData else .fail
-      some (resLine id (certParse (fun _ => if po then some "cert" else none) load b))
+      let body : Bytes → Option String := fun d => if L ≠ 0 ∧ d.length = L then some "cert" else none
+      some (resLine id (certParse (fun _ => if po then some "cert" else none) (derLoad (fun d => (body d).isSome) body) b))
     | _, _, _ => some "bad-op"
+  | ["der_load", h, okLen] =>
+    match parseHex h, parseNat okLen with
+    | some b, some L =>
+      let body : Bytes → Option String := fun d => if L ≠ 0 ∧ d.length = L then some "cert" else none
+      some (match derLoad (fun d => (body d).isSome) body b with
+        | .ok _ => "ok:cert" | .extraData => "extra" | .fail => "fail")
+    | _, _ => some "bad-op"
+  | ["der_total_len", h] =>
+    match parseHex h with
+    | some b => some (match derTotalLen b with | some n => s!"ok:{n}" | none => "none")
+    | none => some "bad-op"
   | ["cert_export_nxp", h] =>
     match parseHex h with
     | some b => some s!"ok:{toHex (certExportNxp b)},{certRawSize b}" | none => some "bad-op"
